@@ -794,6 +794,13 @@ impl World {
     /// Processes the due task with the given name (any of the due tasks
     /// may be the next one the scheduler picks: their time stamps have a
     /// resolution of one second). Falls back to the earliest due task.
+    /// Is a task of exactly that name due?
+    pub fn has_due_task_named(&self, wanted: &str) -> bool {
+        self.project_tasks()["due"].as_array().map(|d| {
+            d.iter().any(|t| t.as_str() == Some(wanted))
+        }).unwrap_or(false)
+    }
+
     pub fn step_named(&mut self, wanted: &str) -> Result<Option<String>, String> {
         self.step_named_opt(wanted, false)
     }
@@ -1676,6 +1683,7 @@ impl World {
         let mut pst = Map::new();
         let mut rst = Map::new();
         let mut kst = Map::new();
+        let mut marked: BTreeSet<String> = BTreeSet::new();
         let mut pubknown = Map::new();
         let mut statuses: BTreeMap<String, Value> = BTreeMap::new();
         for name in self.cas.clone() {
@@ -1744,6 +1752,12 @@ impl World {
                         self.slot_for(child, &name),
                         json!(outcome(&cs["last_exchange"]))
                     );
+                    // the mark the check for inactive children leaves in
+                    // the parent's record of the child (until the child's
+                    // next exchange)
+                    if !cs["suspended"].is_null() {
+                        marked.insert(self.slot_for(child, &name));
+                    }
                 }
             }
         }
@@ -1847,6 +1861,7 @@ impl World {
             "now": chrono::Utc::now().timestamp(),
             "other_tasks": other_tasks, "odd": odd,
             "qsync": qsync,
+            "marked": marked,
         })
     }
 
@@ -2591,6 +2606,26 @@ pub fn apply_action(w: &mut World, action: &Value) -> Result<Value, String> {
             w.run_task(Task::RenewObjectsIfNeeded)?;
             Ok(json!("ok"))
         }
+        "AutoSuspend" => {
+            // the check for inactive children of every CA ("bulk suspend";
+            // the behaviour runs with a threshold of one second): wait
+            // until every exchange so far is older than the threshold,
+            // schedule the tasks and run them
+            std::thread::sleep(std::time::Duration::from_millis(2100));
+            w.env.krill.ca_manager().cas_schedule_suspend_all(
+                &w.env.krill
+            ).map_err(|e| e.to_string())?;
+            let mut done = Vec::new();
+            for ca in w.cas.clone() {
+                let name = format!("suspend_children_if_needed_{ca}");
+                if w.has_due_task_named(&name)
+                    && let Some(n) = w.step_named(&name)?
+                {
+                    done.push(n);
+                }
+            }
+            Ok(json!({"tasks": done}))
+        }
         "UpdateSnapshots" => {
             // the daily job: a new snapshot of every aggregate and of the
             // publication server's content (whose change sets are folded
@@ -2692,6 +2727,7 @@ pub fn run(behaviours: &Path, out: &Path, workdir: &Path, memory: bool) {
                 .unwrap_or(false),
             "objdue": beh.get("objdue").and_then(|x| x.as_bool())
                 .unwrap_or(false),
+            "timing": beh.get("timing").cloned().unwrap_or(json!({})),
         }));
         let mut world = match guarded(|| World::create(workdir, opts)) {
             Outcome::Ok(Ok(w)) => w,
